@@ -3,7 +3,6 @@ package main
 import (
 	"bufio"
 	"encoding/hex"
-	"errors"
 	"fmt"
 	"strings"
 
@@ -145,7 +144,9 @@ func (c *TrieCase) Build() *Built {
 }
 
 func buildErrStr(err error, keys []string) string {
-	if errors.Is(err, trie.ErrStepTooLong) || strings.Contains(err.Error(), trie.ErrStepTooLong.Error()) {
+	// by its text, not by the symbol trie.ErrStepTooLong: the harness must still build against a
+	// tree in which that error value does not exist (seeded/D3 reverts the fix that introduced it)
+	if strings.Contains(err.Error(), "common run of keys is too long for a step") {
 		return "err:step"
 	}
 	if strings.Contains(err.Error(), trie.ErrKeyOutOfOrder.Error()) {
